@@ -47,3 +47,43 @@ check(
     "bounded-exhaustive shapes x all ordered pairs + Hypothesis vs. ancestor-chain path arithmetic and mirror relation",
     "DESIGN.md section 4 C15",
 )
+check(
+    "C01",
+    "fault_enumeration",
+    "Every labelled ordered forest over N <= 3 (quick) / <= 4 (thorough) nodes x build routes x every structural call (incl. invalid arguments) x every position at which any of the eight hooks can raise (once, pairs, persistent single (hook,node), read-only plan) is executed for a NodeMixin class, a slotted LightNodeMixin class and a mixed-family universe, under both ANYTREE_ASSERTIONS settings, plus Hypothesis histories over eight class mixes (Node, AnyNode, SymlinkNode, user classes, both mixins); after every call the link invariant is evaluated over everything reachable and no internal assertion may fire. Complete below the bound, sampled above.",
+    "Hooks only raise, they never mutate the tree; the invariant is read through public .parent/.children; calls run under a lowered recursion limit so unbounded rollback recursion ends quickly; a case that does not terminate within 15 s is reported as a violation (non-termination).",
+    "fault enumeration (bounded-exhaustive forests x calls x hook fault positions) + Hypothesis stateful histories vs. structural link invariant",
+    "DESIGN.md section 4 C01",
+)
+check(
+    "C02",
+    "exploration",
+    "Every labelled ordered forest over N <= 4 nodes (thorough: N = 5 with short children lists) x every parent assignment x every children sequence x every deletion, plus constructor calls of Node/AnyNode/SymlinkNode with every parent=/children= argument and Hypothesis histories over ten class choices: post-state compared on the whole universe with a closed-form specification, refusal required iff the closed-form predicate says so and with exactly the prescribed class.",
+    "Trusts the closed-form spec in vf/mut.py (written from the statement); families are never mixed; non-node arguments only for NodeMixin classes; non-iterable children belong to C03.",
+    "bounded-exhaustive forests x calls + Hypothesis histories vs. closed-form post-state/refusal specification",
+    "DESIGN.md section 4 C02",
+)
+check(
+    "C03",
+    "fault_enumeration",
+    "Every forest over N <= 3 (quick) / <= 4 (thorough) nodes x every call x every position at which a pre-hook can raise (once, pairs covering rollback hooks, persistent single (hook,node), read-only plan) and every invalid argument, plus Hypothesis histories; in-scope failing calls must leave the whole-universe snapshot unchanged. Four known findings (KF-C03-1..4) are recognised only when a step model of the current rollback algorithm predicts exactly the observed exception and post-state; any other deviation is a violation.",
+    "Scope: TreeError/LoopError, TypeError for non-iterable children, or only _pre_* hooks raised. The step model (vf/mut.py StepModel) is used solely to classify deviations, never as oracle.",
+    "fault enumeration of pre-hook exception positions vs. pre-state == post-state, deviations classified against known findings",
+    "DESIGN.md section 4 C03",
+)
+check(
+    "C16",
+    "exploration",
+    "Logging hooks snapshot the forest at every invocation. For successful calls, refused calls and hook-aborted parent assignments the complete log must equal the closed-form protocol log; for every call (also failed children assignments with rollback) the forest may change only between matching pre/post detach or attach hooks and each hook must observe the documented before/after state; post-hook exceptions of parent assignments must leave the preceding step done. Enumerated over all forests N <= 3/4 x calls x single fault positions, plus Hypothesis histories.",
+    "Hook logs of failed children assignments are not prescribed by the statement (only the bracket invariant applies); calls ending in RecursionError (KF-C03-4) are not bracket-checked.",
+    "bounded-exhaustive forests x calls x fault positions + Hypothesis histories vs. closed-form hook log and bracket invariant over in-hook snapshots",
+    "DESIGN.md section 4 C16",
+)
+check(
+    "C18",
+    "exploration",
+    "The same generated history (arguments, fault plans, initial forest) is applied in lock-step to a NodeMixin universe and a slotted LightNodeMixin universe: outcome class, forest and hook log are compared after every call, and every navigation attribute, util helper, iterator (with restrictions), search, Walker, Resolver.get/glob and RenderTree result afterwards. Enumerated over all forests N <= 3/4 x calls x single fault positions, plus Hypothesis histories.",
+    "Pure differential check (no reference model); only tree-node arguments; histories are cut at a RecursionError outcome.",
+    "lock-step differential testing of the two mixins over enumerated single steps and Hypothesis histories",
+    "DESIGN.md section 4 C18",
+)
